@@ -179,6 +179,17 @@ Definition self_re (c : ctx) : list (binding * ident) := combine c (vars c).
 Definition out_of_fuel : stmt := Exit ("OUT_OF_FUEL", 0).
 
 (* ---------- the nine Linearizing impls ---------- *)
+(* the `.map(|clause| ...)` over the clauses of Switch / Create: bodies are linearized in order,
+   threading max_id; `mk` builds the context of a body from the clause's own context *)
+Fixpoint lin_cls (L : stmt -> ctx -> N -> stmt * N) (mk : ctx -> ctx)
+                 (cs : list (ident * ctx * stmt)) (m : N) : list (ident * ctx * stmt) * N :=
+  match cs with
+  | [] => ([], m)
+  | (x, cc, body) :: r =>
+      let '(b', m') := L body (mk cc) m in
+      let '(r', m'') := lin_cls L mk r m' in ((x, cc, b') :: r', m'')
+  end.
+
 Fixpoint lin (fuel : nat) (s : stmt) (context : ctx) (max_id : N) {struct fuel} : stmt * N :=
   match fuel with
   | O => (out_of_fuel, max_id)
@@ -204,14 +215,7 @@ Fixpoint lin (fuel : nat) (s : stmt) (context : ctx) (max_id : N) {struct fuel} 
   | Switch v t cls =>
       let new_context := filter_by_set context (fv_clauses cls) in
       let context_rearrange := new_context ++ [mkb v Prd t] in
-      let '(cls', m1) :=
-        (fix go (cs : list (ident * ctx * stmt)) (m : N) : list (ident * ctx * stmt) * N :=
-           match cs with
-           | [] => ([], m)
-           | (x, cc, body) :: r =>
-               let '(b', m') := lin body (new_context ++ cc) m in
-               let '(r', m'') := go r m' in ((x, cc, b') :: r', m'')
-           end) cls max_id in
+      let '(cls', m1) := lin_cls lin (fun cc => new_context ++ cc) cls max_id in
       if ctx_eqb context context_rearrange then (Switch v t cls', m1)
       else
         let '(v', m2) := if mem (idn v) (ids new_context) then ((fst v, m1 + 1), m1 + 1) else (v, m1) in
@@ -223,14 +227,7 @@ Fixpoint lin (fuel : nat) (s : stmt) (context : ctx) (max_id : N) {struct fuel} 
       let k := List.length context_next in
       let context_reordered := skipn k context ++ firstn k context in
       let context_clauses := filter_by_set context_reordered fvc in
-      let '(cls', m1) :=
-        (fix go (cs : list (ident * ctx * stmt)) (m : N) : list (ident * ctx * stmt) * N :=
-           match cs with
-           | [] => ([], m)
-           | (x, cc, body) :: r =>
-               let '(b', m') := lin body (cc ++ context_clauses) m in
-               let '(r', m'') := go r m' in ((x, cc, b') :: r', m'')
-           end) cls max_id in
+      let '(cls', m1) := lin_cls lin (fun cc => cc ++ context_clauses) cls max_id in
       let context_rearrange := context_next ++ context_clauses in
       let new_binding := mkb v Cns t in
       if ctx_eqb context context_rearrange then
